@@ -241,3 +241,13 @@ func JSONMembers(v interface{}, conv func(interface{}) interface{}) map[string]i
 	}
 	return m
 }
+
+// JSONTransfer is json.Unmarshal(json.Marshal(src), dst): natively exactly that, under the
+// executor the model in engine/jsonmodel.go.  It reports whether Unmarshal returned no error.
+func JSONTransfer(src, dst interface{}, conv func(interface{}) interface{}) bool {
+	b, err := json.Marshal(src)
+	if err != nil {
+		panic(err)
+	}
+	return json.Unmarshal(b, dst) == nil
+}
